@@ -770,3 +770,111 @@ def counts_up(lp, bound):
     return iv is not None and i0 == "0" and cond == "(%s < %s)" % (iv, bound) and inc in ("(++%s)" % iv, "(%s++)" % iv, "(%s += 1)" % iv)
 
 
+
+
+# ---------------------------------------------------------------------------------------------
+# channel pairing of two views processed channel by channel through nth_channel_view
+def layout_mapping(t):
+    """channel mapping (semantic index -> position in memory) read from a view / pixel type string; None if not recognised"""
+    m = re.search(r"layout<boost::mp11::mp_list<([^<>]*)>(?:, boost::mp11::mp_list<((?:std::integral_constant<(?:int|unsigned long), \d+>(?:, )?)+)>)?>", t or "")
+    if m:
+        n = len([x for x in m.group(1).split(",") if x.strip()])
+        if m.group(2):
+            return [int(x) for x in re.findall(r"integral_constant<(?:int|unsigned long), (\d+)>", m.group(2))]
+        return list(range(n))
+    m = re.search(r"planar_pixel_(?:iterator|reference)<[^,]+, boost::mp11::mp_list<([^<>]*)>", t or "")
+    if m:
+        return list(range(len([x for x in m.group(1).split(",") if x.strip()])))
+    return None
+
+
+def channel_pairing(rep, fns, rule, names, count_key):
+    """Every call F(nth_channel_view(A, ea), nth_channel_view(B, eb), ...) in the functions `names`: nth_channel_view counts channels
+    in memory order, so for two views whose layouts differ in this instantiation the same run-time index on both sides pairs
+    different colours (violation); accepted is detail::physical_channel_index<type of A>(k) / <type of B>(k) with one k, and the
+    helper is checked to return element k of the view's channel mapping."""
+    helper_ok = {}
+    for f in fns:
+        if f["name"] == "boost::gil::detail::physical_channel_index" and len(f["params"]) == 2:
+            tab = None
+            for x, _ in find(f["body"], lambda x: x.get("k") == "Decl"):
+                for dd in x["decls"]:
+                    if dd.get("init") is not None:
+                        vals = [strip(c) for c in (strip(dd["init"]).get("c") or [])]
+                        tab = (dd["name"], [int(v.get("const", v.get("v", -1))) if str(v.get("const", v.get("v", ""))).lstrip("-").isdigit() else None for v in vals])
+            rets = [key(x["e"]) for x, _ in find(f["body"], lambda x: x.get("k") == "Return")]
+            want = [int(x) for x in re.findall(r"integral_constant<(?:int|unsigned long), (\d+)>", f["params"][0]["type"])]
+            ok = tab is not None and tab[1] == want and rets == ["%s[%s]" % (tab[0], f["params"][1]["name"])]
+            helper_ok[tuple(want)] = ok
+    for f in fns:
+        if f["name"] not in names:
+            continue
+        for c, pth in find(f["body"], lambda x: x.get("k") == "Call" and len([a for a in x.get("args", []) if strip(a).get("k") == "Call" and strip(a)["callee"]["name"].endswith("::nth_channel_view")]) == 2):
+            sub = [strip(a) for a in c["args"] if strip(a).get("k") == "Call" and strip(a)["callee"]["name"].endswith("::nth_channel_view")]
+            (A, ea), (B, eb) = [(strip(s["args"][0]), strip(s["args"][1])) for s in sub]
+            ma, mb = layout_mapping(A.get("type")), layout_mapping(B.get("type"))
+            rep.count(count_key)
+            short = f["name"].split("::")[-1]
+            k = "%s:%s:%s -> %s" % (rule.split("-")[0], short, "".join(map(str, ma or "?")), "".join(map(str, mb or "?")))
+            where = fn_where(f, c)
+            if ma is None or mb is None:
+                rep.incon(rule, k, {"unrecognised": "layout of %s / %s" % (A.get("type", "")[:80], B.get("type", "")[:80])})
+                continue
+
+            def helper_call(e, mapping):
+                e = strip(e)
+                while isinstance(e, dict) and e.get("k") in ("ImplicitCast", "ExplicitCast"):
+                    e = strip(e.get("e"))
+                if e.get("k") == "Call" and e["callee"]["name"] == "boost::gil::detail::physical_channel_index" and len(e.get("args", [])) == 1:
+                    # the explicit template argument must be a view type with this mapping
+                    tm = layout_mapping(e["callee"].get("full", ""))
+                    return key(e["args"][0]) if tm == mapping else False
+                return None
+            ha, hb = helper_call(ea, ma), helper_call(eb, mb)
+            if ha and hb and ha == hb and helper_ok.get(tuple(ma)) and helper_ok.get(tuple(mb)):
+                rep.ok(rule, k, "both sides take the channel physical_channel_index<own view>(%s)" % ha)
+            elif ha is False or hb is False:
+                rep.violation(rule, k, where, {"problem": "physical_channel_index is instantiated with a view type of another layout than the view it indexes", "call": key(c)[:200]})
+            elif ha is None and hb is None and key(ea) == key(eb):
+                if ma == mb:
+                    rep.ok(rule, k, "same layout on both sides in this instantiation")
+                else:
+                    rep.violation(rule, k, where, {"call": key(c)[:200], "source layout": ma, "destination layout": mb,
+                                                   "problem": "nth_channel_view counts channels in memory order: the same index on both views pairs semantic channel %s of the source with semantic channel %s of the destination"
+                                                   % ([ma.index(i) for i in range(len(ma))], [mb.index(i) for i in range(len(mb))])})
+            else:
+                rep.incon(rule, k, {"unrecognised": "index expressions %s / %s" % (key(ea), key(eb))})
+
+
+def nonempty_guard(rep, fns, rule, names, count_key):
+    """nth_channel_view(V, n) forms a reference to pixel (0,0) of V (checked on its implementation when instantiated): every
+    call in the functions `names` is dominated by a test that the function's source view ($0) has at least one pixel"""
+    derefs = None
+    for f in fns:
+        if f["name"].endswith("__nth_channel_view_basic::make"):
+            g = canonize(f)
+            hit = [key(c) for c, _ in find(g["body"], lambda x: x.get("k") == "Call" and x.get("op") == "()" and key(x).startswith("$0(0,0)"))]
+            derefs = bool(hit) if derefs is None else (derefs or bool(hit))
+    for f in fns:
+        if f["name"] not in names:
+            continue
+        g = canonize(f)
+        calls = [(c, p) for c, p in calls_in(g["body"], lambda n: n.endswith("::nth_channel_view"))]
+        if not calls:
+            continue
+        rep.count(count_key)
+        k = "%s:%s:%s" % (rule.split("-")[0], f["name"].split("::")[-1], "source view non-empty before nth_channel_view")
+        bad = []
+        for c, p in calls:
+            gs = guards(p)
+            w = any((op in ("!=", ">") and l == "$0.width()" and r == "0") or (op == ">=" and l == "$0.width()" and r == "1") for op, l, r in gs)
+            h = any((op in ("!=", ">") and l == "$0.height()" and r == "0") or (op == ">=" and l == "$0.height()" and r == "1") for op, l, r in gs)
+            sz = any(op in ("!=", ">") and l in ("$0.size()",) and r == "0" for op, l, r in gs) or any(op == "==" and l == "$0.empty()" and r == "0" for op, l, r in gs)
+            if not ((w and h) or sz):
+                bad.append({"call": key(c)[:100], "line": c.get("line"), "guards": [x for x in gs if "$0" in x[1] + x[2]][:6]})
+        if derefs is False:
+            rep.ok(rule, k, "nth_channel_view no longer touches pixel (0,0)")
+        elif bad:
+            rep.violation(rule, k, fn_where(f), {"unguarded": bad, "problem": "on an empty view nth_channel_view dereferences pixel (0,0): a null or one-past pointer"})
+        else:
+            rep.ok(rule, k, "%d call(s), all after the emptiness test" % len(calls))
